@@ -168,7 +168,19 @@ func checkC16(p *Program, r *Report) {
 							r.Add("C16.writers", FnName(fn), "cached "+tn+"."+f.Name()+" is the wrapped message's own hash", st.Pos(), okDep, howDep)
 						}
 						if _, isAlloc := base.(*ssa.Alloc); isAlloc || fresh {
-							r.Add("C16.writers", FnName(fn), "memo "+tn+"."+f.Name()+" initialised on a fresh object", st.Pos(), true, "constructor")
+							okInit, howInit := true, "constructor"
+							if sl, isSl := f.Type().Underlying().(*types.Slice); isSl && !isNilConst(st.Val) {
+								if eb, ok := sl.Elem().Underlying().(*types.Basic); ok && eb.Kind() == types.Uint8 {
+									// cached serialisation: a constructor has not serialised anything; the only bytes it may
+									// cache are the ones its caller passed as the serialisation (trusted, see Explain)
+									if paramIndex(fn, st.Val) < 0 {
+										okInit, howInit = false, "a constructor caches bytes that are neither nil nor its caller's serialisation argument: "+exprString(st.Val)+" (for example what a buffered reader pulled from the stream, which may extend past the block)"
+									} else {
+										howInit = "constructor: the caller's serialisation argument, as is"
+									}
+								}
+							}
+							r.Add("C16.writers", FnName(fn), "memo "+tn+"."+f.Name()+" initialised on a fresh object", st.Pos(), okInit, howInit)
 							continue
 						}
 						// must be an accessor of f, on its empty edge
